@@ -22,7 +22,7 @@ ASSUMPTIONS = [
     "results are compared through vlib.observe.plain (public read-back), not through ==, because twin builds have distinct classes",
     "error messages are not compared (not part of the statement)",
 ]
-BUDGET = {"quick": (100, 12), "thorough": (1200, 25)}
+BUDGET = {"quick": (180, 12), "thorough": (1500, 25)}
 
 observe.register_formats()
 
